@@ -232,8 +232,9 @@ def gen_script(rng, seed):
 class Tap:
     """logs order lifecycle events by wrapping Order.__init__/execute/cancel for the duration of a session"""
 
-    def __init__(self, log):
+    def __init__(self, log, max_submissions=1500, max_seconds=45):
         self.log = log
+        self.max_submissions, self.max_seconds = max_submissions, max_seconds
 
     def __enter__(self):
         C.use_repo()
@@ -259,10 +260,10 @@ class Tap:
 
         def init(self_, attributes=None, **kw):
             subs[0] += 1
-            if subs[0] > 1500 or _time.time() - started > 45:
+            if subs[0] > self.max_submissions or _time.time() - started > self.max_seconds:
                 # the flip run-away (known finding F16) also shows as an ever growing set of resting orders inside one step: every fill
                 # then costs a quadratic sort in the fast simulator
-                raise RuntimeError('RunawayFills: more than 1500 order submissions or 45 s in one session')
+                raise RuntimeError(f'RunawayFills: more than {self.max_submissions} order submissions or {self.max_seconds} s in one session')
             try:
                 o_init(self_, attributes, **kw)
             except Exception as e:
@@ -279,7 +280,7 @@ class Tap:
 
         def execute(self_, silent=False):
             fills[0] += 1
-            if fills[0] > 4000:
+            if fills[0] > max(4000, self.max_submissions):
                 # the engine can flip a position back and forth for ever inside one step (known finding F16): abort the session
                 raise RuntimeError('RunawayFills: more than 4000 executions in one session')
             was = self_.status
@@ -388,7 +389,8 @@ def run_session(candles_by_symbol, routes, data_routes=(), exchange_type='future
         except Exception as ex:
             snap['snap_error'] = repr(ex)
         return r
-    with Tap(log):
+    lim = max((sc.get('max_submissions', 1500) for sc in (scripts or {}).values()), default=1500)
+    with Tap(log, max_submissions=lim, max_seconds=45 if lim <= 1500 else 240):
         bm.simulator = sim
         try:
             out['result'] = research.backtest(cfg, rts, drs, cd, warmup_candles=wc, fast_mode=fast, generate_equity_curve=False)
